@@ -402,14 +402,16 @@ class time_limit:
         def handler(signum, frame):
             raise Hang(f"no result after {self.seconds}s")
 
-        self.old = signal.signal(signal.SIGALRM, handler)
-        signal.setitimer(signal.ITIMER_REAL, self.seconds, 0.5)
+        # CPU time of this process, not wall-clock time: a loop that does not terminate burns CPU, while a machine busy with other work
+        # (several checks and coqc running side by side) must not turn a 2 ms parse into a "hang"
+        self.old = signal.signal(signal.SIGVTALRM, handler)
+        signal.setitimer(signal.ITIMER_VIRTUAL, self.seconds, 0.5)
 
     def __exit__(self, *a):
         import signal
 
-        signal.setitimer(signal.ITIMER_REAL, 0)
-        signal.signal(signal.SIGALRM, self.old)
+        signal.setitimer(signal.ITIMER_VIRTUAL, 0)
+        signal.signal(signal.SIGVTALRM, self.old)
         return False
 
 
